@@ -382,8 +382,13 @@ impl Region {
             false
         };
 
-        let meta = self.meta();
-        let meta_flushed = meta.flush(self.index(), &regions)?;
+        // The metadata guard is released before the file lock is taken below:
+        // punch_holes takes file → metadata, holding both here in the other
+        // order can deadlock once a writer queues on the file lock.
+        let meta_flushed = {
+            let meta = self.meta();
+            meta.flush(self.index(), &regions)?
+        };
 
         // Data MUST be durable before metadata — if we crash after metadata sync
         // but before data sync, metadata could reference unwritten data.
